@@ -26,6 +26,17 @@ ENGINES = [
 
 PROPS = {}
 
+# libc functions whose return is a scheduling point in E-PREEMPT variants (engine/preempt.hh, VP_WRAP_LIBC)
+PREEMPT_WRAPPED = ["vsnprintf", "snprintf", "sprintf", "strftime", "gmtime", "localtime", "gmtime_r", "localtime_r", "strtok", "strerror"]
+
+
+def _wrap_libc(cfg):
+    v = cfg.get("variants", {}).get("preempt")
+    if not v:
+        return
+    v["ldflags"] = list(v.get("ldflags", cfg.get("ldflags", []))) + ["-Wl,--wrap=" + f for f in PREEMPT_WRAPPED]
+    v["harness_cxxflags"] = list(v.get("harness_cxxflags", cfg.get("harness_cxxflags", []))) + ["-DVP_WRAP_LIBC"]
+
 
 def _describe_preempt(pid, cfg):
     """Texts for the E-PREEMPT variant built from harness/preempt_pure.hh (C10 describes its own variant by hand)."""
@@ -40,9 +51,11 @@ def _describe_preempt(pid, cfg):
     cfg["assumptions"].append(
         "concurrency (variant 'preempt', engine/preempt.hh): two calls run as fibers of one OS thread; only %s %s compiled with -fsanitize-coverage=trace-pc and every basic-block entry there is a scheduling "
         "point; interleavings are explored at that granularity under sequentially consistent semantics; a read-modify-write inside one basic block, weak-memory effects and all code outside the instrumented "
-        "files (libc, libstdc++ out-of-line code, other phosg sources) are atomic steps; the oracle is differential (the result under concurrency equals the result of the same call alone, which the main "
+        "files (libc, libstdc++ out-of-line code, other phosg sources) are atomic steps, except that the return from each of the libc calls WRAPPEDLIST is a scheduling point as well "
+        "(link-time --wrap: the window in which a result parked in static storage is still unread); the oracle is differential (the result under concurrency equals the result of the same call alone, which the main "
         "sections judge against the references); if an instrumented file defines thread_local objects the variant is skipped (fibers would share them) and the run is reported as not exhaustive"
         % (files, "is" if len(v.get("src_cxxflags", {})) == 1 else "are"))
+    cfg["assumptions"][-1] = cfg["assumptions"][-1].replace("WRAPPEDLIST", ", ".join(PREEMPT_WRAPPED))
     cfg["engine"] = cfg.get("engine", "E-ENUM") + " + E-PREEMPT"
     cfg["technique"] = cfg["technique"] + "; plus preemption-bounded exhaustive exploration of pairs of concurrent calls (every schedule with <= 1-2 preemptions at basic-block granularity, fibers under a controlled scheduler)"
     cfg["level_note"] = cfg.get("level_note", "") + " Concurrent calls are explored for a fixed list of short calls, two at a time, with a preemption bound of 2 (1 for longer calls), at basic-block granularity of the instrumented sources only."
@@ -58,6 +71,7 @@ def _load():
         spec.loader.exec_module(m)
         PROPS[pid] = m.CFG
         _describe_preempt(pid, m.CFG)
+        _wrap_libc(m.CFG)
         for vname, v in m.CFG.get("variants", {}).items():  # other variants may carry their own evidence texts
             if "bounds_text" in v:
                 for tier in ("quick", "thorough"):
